@@ -73,14 +73,14 @@ Definition winv2 (ws : wstate) : Prop :=
 
 Lemma wstep_inv2 cfg ws e ws' wr : winv cfg ws -> winv2 ws -> wstep cfg ws e = (ws', wr) -> winv2 ws'.
 Proof.
-  intros Hw H2 H. destruct e as [c pm|c ev]; cbn [wstep] in H.
+  intros Hw H2 H. destruct e as [c pm|c ev|opt|c]; cbn [wstep] in H.
   - destruct (lookup c (ws_conns ws)) eqn:El.
     + inversion H; subst. assumption.
     + inversion H; subst. intros x Hx. cbn in Hx. destruct (H2 x Hx) as (st & Hl & Ht). exists st. split; [|assumption].
       cbn. rewrite (lookup_app_none _ _ _ _ El). destruct (c =? x) eqn:E; [|assumption].
       apply N.eqb_eq in E. subst x. rewrite El in Hl. discriminate.
   - destruct (lookup c (ws_conns ws)) as [st|] eqn:El.
-    + destruct (step cfg (mem c (ws_set ws)) st ev) as [[st' w1] conn] eqn:Es.
+    + destruct (step (with_auth cfg (ws_auth ws)) (mem c (ws_set ws)) st ev) as [[st' w1] conn] eqn:Es.
       inversion H; subst. clear H. destruct (Hw c st El) as [Hi Hm].
       destruct (step_state _ _ _ _ _ _ _ Hi Es) as (Hi' & _ & Ht1 & Ht2).
       intros x Hx. cbn in Hx. cbn. rewrite lookup_update by (rewrite El; discriminate).
@@ -92,50 +92,58 @@ Proof.
       * apply H2. destruct (conn && c_fixed cfg); [|assumption].
         unfold mem in *. cbn in Hx. rewrite N.eqb_sym, E in Hx. cbn in Hx. assumption.
     + inversion H; subst. assumption.
+  - inversion H; subst. exact H2.
+  - destruct (lookup c (ws_conns ws)) as [st|] eqn:El; inversion H; subst; [|assumption].
+    intros x Hx. cbn in Hx. cbn. rewrite lookup_update by (rewrite El; discriminate).
+    destruct (H2 x Hx) as (s0 & Hl & Ht). destruct (c =? x) eqn:E.
+    + apply N.eqb_eq in E. subst x. rewrite El in Hl. inversion Hl; subst s0. exists (dead st). split; [reflexivity|exact Ht].
+    + exists s0. split; assumption.
 Qed.
 
+(* one step from a state in which UpstreamAuth.auth = Some cred *)
 Lemma wstep_sent cfg cred ws e ws' wr c w :
-  cfg.(c_auth) = Some cred -> cred <> [] -> winv cfg ws -> winv2 ws ->
+  ws.(ws_auth) = Some cred -> cred <> [] -> winv cfg ws -> winv2 ws ->
   wstep cfg ws e = (ws', wr) -> In (c, w) wr ->
   w.(w_kind) = WConnect \/ (w.(w_via) = true /\ w.(w_tunnelled) = false) \/ is_reverse w.(w_pm) = true ->
   carries cred w.(w_fields).
 Proof.
-  intros Ha Hne Hw H2 H Hin Hwhere. destruct e as [c0 pm|c0 ev]; cbn [wstep] in H.
+  intros Ha Hne Hw H2 H Hin Hwhere. destruct e as [c0 pm|c0 ev|opt|c0]; cbn [wstep] in H;
+    [| |inversion H; subst; destruct Hin|destruct (lookup c0 (ws_conns ws)); inversion H; subst; destruct Hin].
   - destruct (lookup c0 (ws_conns ws)); inversion H; subst; destruct Hin.
   - destruct (lookup c0 (ws_conns ws)) as [st|] eqn:El; [|inversion H; subst; destruct Hin].
-    destruct (step cfg (mem c0 (ws_set ws)) st ev) as [[st' w1] conn] eqn:Es.
+    destruct (step (with_auth cfg (ws_auth ws)) (mem c0 (ws_set ws)) st ev) as [[st' w1] conn] eqn:Es.
     inversion H; subst. clear H. apply in_map_iff in Hin. destruct Hin as (w' & Hw' & Hin). inversion Hw'; subst.
     destruct (Hw c st El) as [Hi Hm].
     eapply step_sent; try eassumption.
-    intros Hfs. apply andb_true_iff in Hfs. destruct Hfs as [_ Hmem].
-    destruct (H2 c Hmem) as (s0 & Hl & Ht). rewrite El in Hl. inversion Hl; subst. assumption.
+    + cbn. assumption.
+    + intros Hfs. cbn in Hfs. apply andb_true_iff in Hfs. destruct Hfs as [_ Hmem].
+      destruct (H2 c Hmem) as (s0 & Hl & Ht). rewrite El in Hl. inversion Hl; subst. assumption.
 Qed.
 
 Lemma winv2_init : winv2 ws_init.
 Proof. intros c H. discriminate. Qed.
 
-Lemma wrun_sent cfg cred : cfg.(c_auth) = Some cred -> cred <> [] ->
-  forall es ws, winv cfg ws -> winv2 ws ->
-  forall c w, In (c, w) (snd (wrun cfg ws es)) ->
-  w.(w_kind) = WConnect \/ (w.(w_via) = true /\ w.(w_tunnelled) = false) \/ is_reverse w.(w_pm) = true ->
-  carries cred w.(w_fields).
+(* both invariants hold of every reachable state *)
+Lemma wrun_invs cfg : forall es ws, winv cfg ws -> winv2 ws ->
+  winv cfg (fst (wrun cfg ws es)) /\ winv2 (fst (wrun cfg ws es)).
 Proof.
-  intros Ha Hne. induction es as [|e r IH]; intros ws Hw H2 c w Hin Hwhere; cbn [wrun] in Hin.
-  - destruct Hin.
-  - destruct (wstep cfg ws e) as [ws1 w1] eqn:E1. destruct (wrun cfg ws1 r) as [ws2 w2] eqn:E2.
-    cbn [snd] in Hin. apply in_app_or in Hin. destruct Hin as [Hin|Hin].
-    + eapply wstep_sent; eassumption.
-    + apply (IH ws1) with (c := c); try assumption.
-      * eapply wstep_inv; eassumption.
-      * eapply wstep_inv2; eassumption.
-      * rewrite E2. assumption.
+  induction es as [|e r IH]; intros ws Hw H2; cbn [wrun].
+  - split; assumption.
+  - destruct (wstep cfg ws e) as [ws1 w1] eqn:E1. destruct (wrun cfg ws1 r) as [ws2 w2] eqn:E2. cbn [fst].
+    specialize (IH ws1 (wstep_inv _ _ _ _ _ Hw E1) (wstep_inv2 _ _ _ _ _ Hw H2 E1)). rewrite E2 in IH. exact IH.
 Qed.
 
-Theorem sent_where_due : forall cfg cred es,
-  cfg.(c_auth) = Some cred -> cred <> [] ->
-  forall c w, In (c, w) (snd (wrun cfg ws_init es)) ->
+(* After ANY history (option changes included): if upstream_auth is now configured with value cred, the next event
+   writes cred into every CONNECT head, every request head sent to the proxy outside a tunnel and every request head
+   of a reverse-mode client. *)
+Theorem sent_where_due : forall cfg cred es e,
+  let ws := fst (wrun cfg ws_init es) in
+  ws.(ws_auth) = Some cred -> cred <> [] ->
+  forall c w, In (c, w) (snd (wstep cfg ws e)) ->
   w.(w_kind) = WConnect \/ (w.(w_via) = true /\ w.(w_tunnelled) = false) \/ is_reverse w.(w_pm) = true ->
   carries cred w.(w_fields).
 Proof.
-  intros cfg cred es Ha Hne. apply (wrun_sent cfg cred Ha Hne es ws_init (winv_init cfg) winv2_init).
+  intros cfg cred es e ws Ha Hne c w Hin Hwhere.
+  destruct (wrun_invs cfg es ws_init (winv_init cfg) winv2_init) as [Hw H2]. fold ws in Hw, H2.
+  destruct (wstep cfg ws e) as [ws' wr] eqn:E. eapply wstep_sent; eassumption.
 Qed.
